@@ -149,13 +149,26 @@ def letJoin (name : Bytes) (sc : Scope) (rb : Option (JsStmts × Scope)) : Optio
     | some rb => some (.cons (.varEmpty (sc.genname name).1) rb.1, rb.2.bind name (sc.genname name).1)
     | none => none
 
+/-- the `{ifempty}` block of a loop over `range(…)` (2e1528d): after the loop, outside its frame, `if (index == 0) {…}` -/
+def rangeIeJoin (idx : Bytes) (r0 : Option (JsStmts × Scope)) (ie : Option (Scope → Option (JsStmts × Scope))) :
+    Option (JsStmts × Scope) :=
+  match ie with
+  | none => r0
+  | some f =>
+    match r0 with
+    | none => none
+    | some r0 =>
+      match f r0.2 with
+      | some re => some (r0.1.append (.one (.ifZero idx re.1)), re.2)
+      | none => none
+
 /-- a loop command: `{foreach}` over a list, else `{for}` over a range -/
 def loopJoin (v : Bytes) (list : Expr) (sc : Scope) (rbEach : Option (JsStmts × Scope))
-    (ie : Option (Scope → Option (JsStmts × Scope))) (rbRange : Option (JsStmts × Scope)) (noIfEmpty : Bool) :
+    (ie : Option (Scope → Option (JsStmts × Scope))) (rbRange : Option (JsStmts × Scope)) :
     Option (JsStmts × Scope) :=
   match forcJoin v list sc rbEach ie with
   | some r => some r
-  | none => rangeJoin v list sc rbRange noIfEmpty
+  | none => rangeIeJoin (sc.pushForRange v).1.2.2.2 (rangeJoin v list sc rbRange true) ie
 
 /-- the first argument of the callee: `{}`, `opt_data` (`data="all"`) or the `data="$e"` expression -/
 def callBase (sc : Scope) (allData : Bool) (data : Option Expr) : Option DataBase :=
@@ -262,7 +275,7 @@ mutual
         (match ifEmpty with
           | none => none
           | some ie => some (toBlock buf ie))
-        (toBody buf body (sc.pushForRange v).2) ifEmpty.isNone
+        (toBody buf body (sc.pushForRange v).2)
     | buf, .switch _ value cases, sc =>
       match toAst sc value, toCases buf cases sc with
       | some j, some rc => some (.one (.switchS j rc.1), rc.2)
@@ -413,6 +426,9 @@ mutual
     | .pluralS e cases dflt =>
       [.fixed (spaces ind), .fixed b!"switch ("] ++ render e ++ [.fixed b!") {", .fixed [10]] ++ renderPlural es6 (ind + 1) cases ++
         [.fixed (spaces (ind + 1)), .fixed b!"default:", .fixed [10]] ++ renderStmts es6 (ind + 1 + 1) dflt ++
+        [.fixed (spaces ind), .fixed b!"}", .fixed [10]]
+    | .ifZero idx body =>
+      [.fixed (spaces ind), .fixed b!"if (", .ident idx, .fixed b!" == 0) {", .fixed [10]] ++ renderStmts es6 (ind + 1) body ++
         [.fixed (spaces ind), .fixed b!"}", .fixed [10]]
     | .ifPos lim body els =>
       [.fixed (spaces ind), .fixed b!"if (", .ident lim, .fixed b!" > 0) {", .fixed [10]] ++ renderStmts es6 (ind + 1) body ++
@@ -732,9 +748,8 @@ theorem forcJoin_some {v : Bytes} {list : Expr} {sc : Scope} {rb : Option (JsStm
             exact ⟨re, hre, h.symm⟩
 
 theorem loopJoin_some {v : Bytes} {list : Expr} {sc : Scope} {rbEach rbRange : Option (JsStmts × Scope)}
-    {ie : Option (Scope → Option (JsStmts × Scope))} {noIE : Bool} {r : JsStmts × Scope}
-    (h : loopJoin v list sc rbEach ie rbRange noIE = some r) :
-    forcJoin v list sc rbEach ie = some r ∨ rangeJoin v list sc rbRange noIE = some r := by
+    {r : JsStmts × Scope} (h : loopJoin v list sc rbEach none rbRange = some r) :
+    forcJoin v list sc rbEach none = some r ∨ rangeJoin v list sc rbRange true = some r := by
   unfold loopJoin at h
   split at h
   · rename_i r' hf
@@ -742,6 +757,29 @@ theorem loopJoin_some {v : Bytes} {list : Expr} {sc : Scope} {rbEach rbRange : O
     subst h
     exact Or.inl hf
   · exact Or.inr h
+
+/-- a loop with an `{ifempty}` block: a foreach, or a range loop followed by `if (index == 0) {…}` -/
+theorem loopJoin_ie_some {v : Bytes} {list : Expr} {sc : Scope} {rbEach rbRange : Option (JsStmts × Scope)}
+    {f : Scope → Option (JsStmts × Scope)} {r : JsStmts × Scope} (h : loopJoin v list sc rbEach (some f) rbRange = some r) :
+    forcJoin v list sc rbEach (some f) = some r ∨
+      ∃ r0 re, rangeJoin v list sc rbRange true = some r0 ∧ f r0.2 = some re ∧
+        r = (r0.1.append (.one (.ifZero (sc.pushForRange v).1.2.2.2 re.1)), re.2) := by
+  unfold loopJoin at h
+  split at h
+  · rename_i r' hf
+    simp only [Option.some.injEq] at h
+    subst h
+    exact Or.inl hf
+  · simp only [rangeIeJoin] at h
+    cases hr0 : rangeJoin v list sc rbRange true with
+    | none => simp [hr0] at h
+    | some r0 =>
+      simp only [hr0] at h
+      cases hre : f r0.2 with
+      | none => simp [hre] at h
+      | some re =>
+        simp only [hre, Option.some.injEq] at h
+        exact Or.inr ⟨r0, re, rfl, hre, h.symm⟩
 
 theorem isRangeCall_some {list : Expr} {args : ExprList} (h : isRangeCall list = some args) :
     ∃ p, list = .func p b!"range" args := by
@@ -888,6 +926,29 @@ theorem forc_range_runs (p : Nat) (v : Bytes) (list : Expr) (body : Block) (args
   try dsimp only
   exact (Runs.seq (Runs.setScope _) (Runs.seq Runs.indentP (Runs.seq (Runs.fx _) (Runs.seq (Runs.emit _) (Runs.seq (Runs.fx _) (Runs.seq (Runs.emits _) (Runs.seq (Runs.fx _) (Runs.seq Runs.nl (Runs.seq Runs.indentP (Runs.seq (Runs.fx _) (Runs.seq (Runs.emit _) (Runs.seq (Runs.fx _) (Runs.seq (Runs.emits _) (Runs.seq (Runs.fx _) (Runs.seq Runs.nl (Runs.seq Runs.indentP (Runs.seq (Runs.fx _) (Runs.seq (Runs.emit _) (Runs.seq (Runs.fx _) (Runs.seq (Runs.emits _) (Runs.seq (Runs.fx _) (Runs.seq (Runs.emit _) (Runs.seq (Runs.fx _) (Runs.seq (Runs.emit _) (Runs.seq (Runs.fx _) (Runs.seq (Runs.emit _) (Runs.seq (Runs.fx _) (Runs.seq (Runs.emit _) (Runs.seq (Runs.fx _) (Runs.seq (Runs.emit _) (Runs.seq (Runs.fx _) (Runs.seq (Runs.emit _) (Runs.seq (Runs.fx _) (Runs.seq Runs.nl (Runs.seq Runs.incIndent (Runs.seq hb (Runs.seq Runs.decIndent (Runs.seq Runs.indentP (Runs.seq (Runs.fx _) (Runs.seq Runs.nl (Runs.popScope))))))))))))))))))))))))))))))))))))))))).cast
     (by simp [rangeStmts, renderStmts, renderStmt, JsStmts.one])
+
+theorem forc_range_some_runs (p : Nat) (v : Bytes) (list : Expr) (body ie : Block) (args : ExprList) (l : Expr)
+    (jl ji jc : JsExpr) (rb re : JsStmts × Scope) (hr : isRangeCall list = some args) (hl : rangeLimit args = some l)
+    (hjl : toAst sc l = some jl) (hji : toAst sc (rangeInit args) = some ji) (hjc : toAst sc (rangeIncr args) = some jc)
+    (hb : Runs (At (ind + 1) buf ae (sc.pushForRange v).2) (At (ind + 1) buf ae rb.2) (walkBody sk o body)
+      (renderStmts (isEs6 o) (ind + 1) rb.1))
+    (hie : Runs (At (ind + 1) buf ae rb.2.pop) (At (ind + 1) buf ae re.2) (walkBlock sk o ie) (renderStmts (isEs6 o) (ind + 1) re.1)) :
+    Runs (At ind buf ae sc) (At ind buf ae re.2) (walkCmd sk o (.forc p v list body (some ie)))
+      (renderStmts (isEs6 o) ind ((rangeStmts (sc.pushForRange v).1 jl ji jc rb.1).append
+        (.one (.ifZero (sc.pushForRange v).1.2.2.2 re.1)))) := by
+  sunfold walkCmd
+  mred
+  rw [hr]
+  mred
+  try dsimp only
+  rw [hl]
+  mred
+  refine (Runs.seq Runs.atOther (Runs.block (walkExpr_renders sk o sc l jl hjl)
+    (Runs.block (walkExpr_renders sk o sc _ ji hji) (Runs.block (walkExpr_renders sk o sc _ jc hjc)
+      (Runs.getScope ?_))))).cast (List.nil_append _)
+  try dsimp only
+  exact (Runs.seq (Runs.setScope _) (Runs.seq Runs.indentP (Runs.seq (Runs.fx _) (Runs.seq (Runs.emit _) (Runs.seq (Runs.fx _) (Runs.seq (Runs.emits _) (Runs.seq (Runs.fx _) (Runs.seq Runs.nl (Runs.seq Runs.indentP (Runs.seq (Runs.fx _) (Runs.seq (Runs.emit _) (Runs.seq (Runs.fx _) (Runs.seq (Runs.emits _) (Runs.seq (Runs.fx _) (Runs.seq Runs.nl (Runs.seq Runs.indentP (Runs.seq (Runs.fx _) (Runs.seq (Runs.emit _) (Runs.seq (Runs.fx _) (Runs.seq (Runs.emits _) (Runs.seq (Runs.fx _) (Runs.seq (Runs.emit _) (Runs.seq (Runs.fx _) (Runs.seq (Runs.emit _) (Runs.seq (Runs.fx _) (Runs.seq (Runs.emit _) (Runs.seq (Runs.fx _) (Runs.seq (Runs.emit _) (Runs.seq (Runs.fx _) (Runs.seq (Runs.emit _) (Runs.seq (Runs.fx _) (Runs.seq (Runs.emit _) (Runs.seq (Runs.fx _) (Runs.seq Runs.nl (Runs.seq Runs.incIndent (Runs.seq hb (Runs.seq Runs.decIndent (Runs.seq Runs.indentP (Runs.seq (Runs.fx _) (Runs.seq Runs.nl (Runs.seq Runs.popScope (Runs.seq Runs.indentP (Runs.seq (Runs.fx _) (Runs.seq (Runs.emit _) (Runs.seq (Runs.fx _) (Runs.seq Runs.nl (Runs.seq Runs.incIndent (Runs.seq hie (Runs.seq Runs.decIndent (Runs.seq Runs.indentP (Runs.seq (Runs.fx _) Runs.nl))))))))))))))))))))))))))))))))))))))))))))))))))).cast
+    (by simp [rangeStmts, renderStmts, renderStmt, JsStmts.one, JsStmts.append])
 
 /-! ### switch -/
 
@@ -1453,12 +1514,15 @@ mutual
           (walkBody_renders body buf _ rbv hrb (ind + 1))
     | .forc p v list body (some ie), buf, sc, r, h, ind => by
       unfold toCmd at h
-      have h := (loopJoin_some h).resolve_right (by intro h'; have := (rangeJoin_some h').2.1; simp at this)
-      obtain ⟨_, hr, j, rbv, hj, hrb, he⟩ := forcJoin_some h
-      simp only at he
-      obtain ⟨re, hre, rfl⟩ := he
-      exact forc_some_runs sk o p v list body ie j rbv re hr hj (walkBody_renders body buf _ rbv hrb (ind + 1 + 1))
-        (walkBlock_renders ie buf _ re hre (ind + 1))
+      rcases loopJoin_ie_some h with h | ⟨r0, re, hr0, hre, rfl⟩
+      · obtain ⟨_, hr, j, rbv, hj, hrb, he⟩ := forcJoin_some h
+        simp only at he
+        obtain ⟨re, hre, rfl⟩ := he
+        exact forc_some_runs sk o p v list body ie j rbv re hr hj (walkBody_renders body buf _ rbv hrb (ind + 1 + 1))
+          (walkBlock_renders ie buf _ re hre (ind + 1))
+      · obtain ⟨_, _, args, l, c, jl, ji, rbv, pc, hr, hl, hinc, _, hjl, hji, hrb, rfl⟩ := rangeJoin_some hr0
+        exact forc_range_some_runs sk o p v list body ie args l jl ji (.num c) rbv re hr hl hjl hji (by rw [hinc]; rfl)
+          (walkBody_renders body buf _ rbv hrb (ind + 1)) (walkBlock_renders ie buf _ re hre (ind + 1))
     | .switch p value cases, buf, sc, r, h, ind => by
       unfold toCmd at h
       split at h
@@ -2138,16 +2202,23 @@ mutual
         exact ⟨scOk_of_stack hs hst hn, by rw [hst], hn⟩
     | .forc p v list body (some ie), buf, sc, r, h, hs => by
       unfold toCmd at h
-      have h := (loopJoin_some h).resolve_right (by intro h'; have := (rangeJoin_some h').2.1; simp at this)
-      obtain ⟨hv, _, j, rbv, _, hrb, he⟩ := forcJoin_some h
-      simp only at he
-      obtain ⟨re, hre, rfl⟩ := he
-      obtain ⟨p1, p2, p3⟩ := scOk_pushForEach hs v hv
-      obtain ⟨_, b2, b3⟩ := toBody_scope body buf _ rbv hrb p1
-      have hst : rbv.2.pop.stack = sc.stack := by simp only [Scope.pop]; rw [b2, p2]
-      have hn : sc.n ≤ rbv.2.pop.n := by simp only [Scope.pop]; omega
-      obtain ⟨c1, c2⟩ := toBlock_scope ie buf _ re hre (scOk_of_stack hs hst hn)
-      exact ⟨scOk_of_stack hs (c1.trans hst) (Nat.le_trans hn c2), by simp only [c1, hst], Nat.le_trans hn c2⟩
+      rcases loopJoin_ie_some h with h | ⟨r0, re, hr0, hre, rfl⟩
+      · obtain ⟨hv, _, j, rbv, _, hrb, he⟩ := forcJoin_some h
+        simp only at he
+        obtain ⟨re, hre, rfl⟩ := he
+        obtain ⟨p1, p2, p3⟩ := scOk_pushForEach hs v hv
+        obtain ⟨_, b2, b3⟩ := toBody_scope body buf _ rbv hrb p1
+        have hst : rbv.2.pop.stack = sc.stack := by simp only [Scope.pop]; rw [b2, p2]
+        have hn : sc.n ≤ rbv.2.pop.n := by simp only [Scope.pop]; omega
+        obtain ⟨c1, c2⟩ := toBlock_scope ie buf _ re hre (scOk_of_stack hs hst hn)
+        exact ⟨scOk_of_stack hs (c1.trans hst) (Nat.le_trans hn c2), by simp only [c1, hst], Nat.le_trans hn c2⟩
+      · obtain ⟨hv, _, args, l, c, jl, ji, rbv, pc, _, _, _, _, _, _, hrb, rfl⟩ := rangeJoin_some hr0
+        obtain ⟨p1, p2, p3⟩ := scOk_pushForRange hs v hv
+        obtain ⟨_, b2, b3⟩ := toBody_scope body buf _ rbv hrb p1
+        have hst : rbv.2.pop.stack = sc.stack := by simp only [Scope.pop]; rw [b2, p2]
+        have hn : sc.n ≤ rbv.2.pop.n := by simp only [Scope.pop]; omega
+        obtain ⟨c1, c2⟩ := toBlock_scope ie buf _ re hre (scOk_of_stack hs hst hn)
+        exact ⟨scOk_of_stack hs (c1.trans hst) (Nat.le_trans hn c2), by simp only [c1, hst], Nat.le_trans hn c2⟩
     | .switch p value cases, buf, sc, r, h, hs => by
       unfold toCmd at h
       split at h
@@ -2357,25 +2428,36 @@ mutual
       have hsc := toCmd_scope ae (.forc p v list body ie) buf sc r h hs
       unfold toCmd at h
       have hst : r.2.stack = sc.stack := by
-        rcases loopJoin_some h with h | h
-        · obtain ⟨hv, _, j, rbv, _, hrb, he⟩ := forcJoin_some h
-          obtain ⟨p1, p2, _⟩ := scOk_pushForEach hs v hv
-          obtain ⟨_, b2, _⟩ := toBody_scope ae body buf _ rbv hrb p1
-          have hst : rbv.2.pop.stack = sc.stack := by simp only [Scope.pop]; rw [b2, p2]
-          cases ie with
-          | none => simp only at he; subst he; exact hst
-          | some b =>
+        cases ie with
+        | none =>
+          rcases loopJoin_some h with h | h
+          · obtain ⟨hv, _, j, rbv, _, hrb, he⟩ := forcJoin_some h
+            obtain ⟨p1, p2, _⟩ := scOk_pushForEach hs v hv
+            obtain ⟨_, b2, _⟩ := toBody_scope ae body buf _ rbv hrb p1
+            have hst : rbv.2.pop.stack = sc.stack := by simp only [Scope.pop]; rw [b2, p2]
+            simp only at he; subst he; exact hst
+          · obtain ⟨hv, _, args, l, c, jl, ji, rbv, pc, _, _, _, _, _, _, hrb, rfl⟩ := rangeJoin_some h
+            obtain ⟨p1, p2, _⟩ := scOk_pushForRange hs v hv
+            obtain ⟨_, b2, _⟩ := toBody_scope ae body buf _ rbv hrb p1
+            simp only [Scope.pop]; rw [b2, p2]
+        | some b =>
+          rcases loopJoin_ie_some h with h | ⟨r0, re, hr0, hre, rfl⟩
+          · obtain ⟨hv, _, j, rbv, _, hrb, he⟩ := forcJoin_some h
+            obtain ⟨p1, p2, p3⟩ := scOk_pushForEach hs v hv
+            obtain ⟨_, b2, b3⟩ := toBody_scope ae body buf _ rbv hrb p1
+            have hst : rbv.2.pop.stack = sc.stack := by simp only [Scope.pop]; rw [b2, p2]
             simp only at he
             obtain ⟨re, hre, rfl⟩ := he
-            obtain ⟨_, _, p3⟩ := scOk_pushForEach hs v hv
-            obtain ⟨_, _, b3⟩ := toBody_scope ae body buf _ rbv hrb p1
             have hn : sc.n ≤ rbv.2.pop.n := by simp only [Scope.pop]; omega
             obtain ⟨c1, _⟩ := toBlock_scope ae b buf _ re hre (scOk_of_stack hs hst hn)
             exact c1.trans hst
-        · obtain ⟨hv, _, args, l, c, jl, ji, rbv, pc, _, _, _, _, _, _, hrb, rfl⟩ := rangeJoin_some h
-          obtain ⟨p1, p2, _⟩ := scOk_pushForRange hs v hv
-          obtain ⟨_, b2, _⟩ := toBody_scope ae body buf _ rbv hrb p1
-          simp only [Scope.pop]; rw [b2, p2]
+          · obtain ⟨hv, _, args, l, c, jl, ji, rbv, pc, _, _, _, _, _, _, hrb, rfl⟩ := rangeJoin_some hr0
+            obtain ⟨p1, p2, p3⟩ := scOk_pushForRange hs v hv
+            obtain ⟨_, b2, b3⟩ := toBody_scope ae body buf _ rbv hrb p1
+            have hst : rbv.2.pop.stack = sc.stack := by simp only [Scope.pop]; rw [b2, p2]
+            have hn : sc.n ≤ rbv.2.pop.n := by simp only [Scope.pop]; omega
+            obtain ⟨c1, _⟩ := toBlock_scope ae b buf _ re hre (scOk_of_stack hs hst hn)
+            exact c1.trans hst
       exact goodBuf_of_stack hg hst hsc.2.2
     | .letContent p name body, buf, sc, r, h, hs, g, hg => by
       unfold toCmd at h
@@ -3521,7 +3603,8 @@ theorem range_loop_ok {sc : Scope} (hs : ScOk sc) (hg : GoodBuf sc buf) (v : Byt
       e.locals.find? (·.1 == lv) = some (lv, .num a) →
       execLoopStep (execStmts F G fuel rb.1) lv xn xs xi k e = .ok e' →
       ∃ text, Spec.Eval.loopSpec (refBlock F R ae body) env v last (rangeItems a l s) idx = .val text ∧
-        BufIs buf e' (out ++ text) ∧ Keeps buf sc.n e e' := by
+        BufIs buf e' (out ++ text) ∧ Keeps buf sc.n e e' ∧
+        e'.locals.find? (·.1 == xi) = some (xi, .num ((idx + (rangeItems a l s).length : Nat) : Int)) := by
   have uN : IsUse b!"Limit" := Or.inr (Or.inr (Or.inl rfl))
   have uS : IsUse b!"Step" := Or.inr (Or.inr (Or.inr (Or.inr rfl)))
   have uI : IsUse b!"Index" := Or.inr (Or.inr (Or.inr (Or.inl rfl)))
@@ -3627,15 +3710,18 @@ theorem range_loop_ok {sc : Scope} (hs : ScOk sc) (hg : GoodBuf sc buf) (v : Byt
       have h3c : (setLocal (setLocal eb lv (.num (a + s))) xi (.num ((idx + 1 : Nat) : Int))).locals.find? (·.1 == lv) =
           some (lv, .num (a + s)) := by
         rw [find_setLocal_ne _ xi lv _ ne_lv_xi.symm]; exact find_setLocal_eq _ _ _
-      obtain ⟨tr, htr, hb', hk'⟩ := ih (a + s) (idx + 1) _ e' (out ++ ti) hexa' hexi' hlen2 hrel_c hb_c h2c hsc (find_setLocal_eq _ _ _) h3c hx
-      refine ⟨ti ++ tr, ?_, by rw [← List.append_assoc]; exact hb', hk_ec.trans hk' (Nat.le_refl _)⟩
-      rw [hitems]
-      simp only [Spec.Eval.loopSpec, hti, htr, Spec.Eval.Out.bind]
+      obtain ⟨tr, htr, hb', hk', hfi⟩ := ih (a + s) (idx + 1) _ e' (out ++ ti) hexa' hexi' hlen2 hrel_c hb_c h2c hsc (find_setLocal_eq _ _ _) h3c hx
+      refine ⟨ti ++ tr, ?_, by rw [← List.append_assoc]; exact hb', hk_ec.trans hk' (Nat.le_refl _), ?_⟩
+      · rw [hitems]
+        simp only [Spec.Eval.loopSpec, hti, htr, Spec.Eval.Out.bind]
+      · rw [hfi, hitems, List.length_cons]
+        have : idx + 1 + (rangeItems (a + s) l s).length = idx + ((rangeItems (a + s) l s).length + 1) := by omega
+        rw [this]
     · have : decide (a < l) = false := by simpa using hlt
       simp only [this, toBoolean, Bool.false_eq_true, if_false, SRes.ok.injEq] at hx
       subst hx
       rw [rangeItems_done a l s hspos hlt]
-      exact ⟨[], by simp [Spec.Eval.loopSpec], by simpa using hb, Keeps.refl _ _ _⟩
+      exact ⟨[], by simp [Spec.Eval.loopSpec], by simpa using hb, Keeps.refl _ _ _, by simpa using hix⟩
 
 /-- a loop that completes has compared two numbers -/
 theorem loop_first {body : JEnv → SRes} {i lim step idx : Bytes} {k : Nat} {e e' : JEnv} {vi vl : JVal}
@@ -3652,12 +3738,18 @@ theorem loop_first {body : JEnv → SRes} {i lim step idx : Bytes} {k : Nat} {e 
     cases vi <;> cases vl <;> simp [binop] at hc
     exact ⟨_, _, rfl, rfl⟩
 
-theorem range_ok (p : Nat) (v : Bytes) (list : Expr) (body : Block) (ihb : BodyOk F G R ae buf body) :
+/-- a range loop that completes: the list Spec/Eval loops over, the text of the loop, and the index local — the number of
+    iterations -/
+theorem range_core (v : Bytes) (list : Expr) (body : Block) (ihb : BodyOk F G R ae buf body) :
     ∀ (fuel : Nat) (sc : Scope) (r : JsStmts × Scope) (env : SEnv) (jenv jenv' : JEnv) (out : Bytes),
       rangeJoin v list sc (toBody ae buf body (sc.pushForRange v).2) true = some r → ScOk sc → GoodBuf sc buf → EnvRel R.entry sc env jenv →
       BufIs buf jenv out → execStmts F G fuel r.1 jenv = .ok jenv' →
-      ∃ text env', refCmd F R ae (.forc p v list body none) env = .val (text, env') ∧ EnvRel R.entry r.2 env' jenv' ∧
-        BufIs buf jenv' (out ++ text) ∧ Keeps buf sc.n jenv jenv' := by
+      ∃ xs text, Spec.Eval.eval env list = .val (.list xs) ∧
+        (match xs with
+          | [] => text = []
+          | x :: xs' => Spec.Eval.loopSpec (refBlock F R ae body) env v xs'.length (x :: xs') 0 = .val text) ∧
+        EnvRel R.entry r.2 env jenv' ∧ BufIs buf jenv' (out ++ text) ∧ Keeps buf sc.n jenv jenv' ∧
+        jenv'.locals.find? (·.1 == (sc.pushForRange v).1.2.2.2) = some ((sc.pushForRange v).1.2.2.2, .num (xs.length : Int)) := by
   intro fuel sc r env jenv jenv' out h hs hg hrel hb hx
   obtain ⟨hv, _, args, l, c, jl, ji, rbv, pc, hr, hl, hinc, hpos, hjl, hji, hrb, rfl⟩ := rangeJoin_some h
   obtain ⟨pf, rfl⟩ := isRangeCall_some hr
@@ -3742,7 +3834,7 @@ theorem range_ok (p : Nat) (v : Bytes) (list : Expr) (body : Block) (ihb : BodyO
     rw [find_setLocal_ne _ _ buf _ (nb _ uI).symm, find_setLocal_ne _ _ buf _ (nb _ u0).symm,
       find_setLocal_ne _ _ buf _ (nb _ uS).symm, find_setLocal_ne _ _ buf _ (nb _ uN).symm]
     exact hb
-  obtain ⟨text, ht, hb', hk'⟩ := range_loop_ok F G R ae buf hs hg v hv body rbv hrb ihb env lim c hpos fuel
+  obtain ⟨text, ht, hb', hk', hfi⟩ := range_loop_ok F G R ae buf hs hg v hv body rbv hrb ihb env lim c hpos fuel
     ((rangeItems a lim c).length - 1) _ _ _ _ rfl rfl rfl rfl fuel a 0 _ e3 out hexa (by decide)
     (fun hlt => by rw [rangeItems_step a lim c hpos hlt]; simp) hrel4 hb4 fN fS (find_setLocal_eq _ _ _) fV h3
   have hk := k1234.trans hk' (Nat.le_refl _)
@@ -3752,17 +3844,31 @@ theorem range_ok (p : Nat) (v : Bytes) (list : Expr) (body : Block) (ihb : BodyO
     simp only [Scope.pop]; rw [b2, p2]
   have hev : Spec.Eval.eval env (.func pf b!"range" args) = .val (.list (rangeItems a lim c)) := by
     rw [range_eval env pf args l a lim c hl hvinit hvlim (by rw [hinc]; simp [Spec.Eval.eval]), rangeSpec_val a lim c hpos]
-  refine ⟨text, env, ?_, envRel_keep hrel hk hs.2 (Nat.le_refl _) hg.2 hst, hb', hk⟩
-  cases hitems : rangeItems a lim c with
-  | nil =>
-    rw [hitems] at ht
-    simp only [Spec.Eval.loopSpec, Out.val.injEq] at ht
-    subst ht
-    simp [refCmd, hev, hitems, Spec.Eval.Out.bind]
-  | cons x xs' =>
-    rw [hitems] at ht
-    have ht' : Spec.Eval.loopSpec (refBlock F R ae body) env v xs'.length (x :: xs') 0 = .val text := by simpa using ht
-    simp [refCmd, hev, hitems, Spec.Eval.Out.bind, ht']
+  refine ⟨rangeItems a lim c, text, hev, ?_, envRel_keep hrel hk hs.2 (Nat.le_refl _) hg.2 hst, hb', hk, ?_⟩
+  · cases hitems : rangeItems a lim c with
+    | nil =>
+      rw [hitems] at ht
+      simp only [Spec.Eval.loopSpec, Out.val.injEq] at ht
+      exact ht.symm
+    | cons x xs' =>
+      rw [hitems] at ht
+      simpa using ht
+  · have hnm : (sc.pushForRange v).1.2.2.2 = Scope.jsname v b!"Index" (sc.n + 1) := rfl
+    rw [hnm]
+    simpa using hfi
+
+theorem range_ok (p : Nat) (v : Bytes) (list : Expr) (body : Block) (ihb : BodyOk F G R ae buf body) :
+    ∀ (fuel : Nat) (sc : Scope) (r : JsStmts × Scope) (env : SEnv) (jenv jenv' : JEnv) (out : Bytes),
+      rangeJoin v list sc (toBody ae buf body (sc.pushForRange v).2) true = some r → ScOk sc → GoodBuf sc buf → EnvRel R.entry sc env jenv →
+      BufIs buf jenv out → execStmts F G fuel r.1 jenv = .ok jenv' →
+      ∃ text env', refCmd F R ae (.forc p v list body none) env = .val (text, env') ∧ EnvRel R.entry r.2 env' jenv' ∧
+        BufIs buf jenv' (out ++ text) ∧ Keeps buf sc.n jenv jenv' := by
+  intro fuel sc r env jenv jenv' out h hs hg hrel hb hx
+  obtain ⟨xs, text, hev, ht, hrel', hb', hk, _⟩ := range_core F G R ae buf v list body ihb fuel sc r env jenv jenv' out h hs hg hrel hb hx
+  refine ⟨text, env, ?_, hrel', hb', hk⟩
+  cases xs with
+  | nil => simp only at ht; subst ht; simp [refCmd, hev, Spec.Eval.Out.bind]
+  | cons x xs' => simp only at ht; simp [refCmd, hev, Spec.Eval.Out.bind, ht]
 
 /-- `var xList = list; var xLimit = xList.length;` and then the loop -/
 theorem foreach_core {sc : Scope} (hs : ScOk sc) (hg : GoodBuf sc buf) (v : Bytes) (hv : v.contains 36 = false) (list : Expr) (j : JsExpr)
@@ -3877,7 +3983,49 @@ theorem forc_some_ok (p : Nat) (v : Bytes) (list : Expr) (body ie : Block) (ihb 
     (ihe : BlockOk F G R ae buf ie) : CmdOk F G R ae buf (.forc p v list body (some ie)) := by
   intro fuel sc r env jenv jenv' out h hs hg hrel hb hx
   unfold toCmd at h
-  have h := (loopJoin_some h).resolve_right (by intro h'; have := (rangeJoin_some h').2.1; simp at this)
+  rcases loopJoin_ie_some h with h | ⟨r0, re, hr0, hre, rfl⟩
+  case inr =>
+    -- a range loop, then `if (index == 0) {…}` outside its frame
+    rw [execStmts_append] at hx
+    obtain ⟨e1, hx1, hx2⟩ := sres_bind_ok hx
+    obtain ⟨xs, text, hev, ht, hrel1, hb1, hk1, hfi⟩ := range_core F G R ae buf v list body ihb fuel sc r0 env jenv e1 out hr0 hs hg hrel hb hx1
+    obtain ⟨hv, _, args, l, c, jl, ji, rbv, pc, _, _, _, _, _, _, hrb, hr0e⟩ := rangeJoin_some hr0
+    have hst : r0.2.stack = sc.stack := by
+      rw [hr0e]
+      obtain ⟨p1, p2, _⟩ := scOk_pushForRange hs v hv
+      obtain ⟨_, b2, _⟩ := toBody_scope ae body buf _ rbv hrb p1
+      simp only [Scope.pop]; rw [b2, p2]
+    have hn : sc.n ≤ r0.2.n := by
+      rw [hr0e]
+      obtain ⟨p1, _, p3⟩ := scOk_pushForRange hs v hv
+      obtain ⟨_, _, b3⟩ := toBody_scope ae body buf _ rbv hrb p1
+      simp only [Scope.pop]; omega
+    have hs' : ScOk r0.2 := scOk_of_stack hs hst hn
+    obtain ⟨c1, c2⟩ := toBlock_scope ae ie buf _ re hre hs'
+    rw [execStmts_one] at hx2
+    simp only [execStmt] at hx2
+    obtain ⟨cv, hcv, hx2⟩ := withVal_ok hx2
+    have hcz : eval e1 (.loopFirst (sc.pushForRange v).1.2.2.2) = .val (.bool ((xs.length : Int) == 0)) := by
+      simp [eval, localNum, hfi]
+    rw [hcz] at hcv
+    simp only [JOut.val.injEq] at hcv
+    subst hcv
+    cases xs with
+    | nil =>
+      simp only [List.length_nil, Int.natCast_zero, beq_self_eq_true, toBoolean, if_true] at hx2
+      simp only at ht
+      subst ht
+      obtain ⟨t2, ht2, hb2, hk2⟩ := ihe fuel _ re env e1 jenv' (out ++ []) hre hs' (goodBuf_of_stack hg hst hn) hrel1 hb1 hx2
+      have hk := hk1.trans (hk2.mono hn) (Nat.le_refl _)
+      refine ⟨t2, env, ?_, envRel_keep hrel hk hs.2 (Nat.le_refl _) hg.2 (c1.trans hst), by simpa using hb2, hk⟩
+      simp [refCmd, hev, Spec.Eval.Out.bind, ht2]
+    | cons x xs' =>
+      have hne : ((((x :: xs').length : Nat) : Int) == 0) = false := by simp; omega
+      simp only [hne, toBoolean, Bool.false_eq_true, if_false, SRes.ok.injEq] at hx2
+      subst hx2
+      simp only at ht
+      refine ⟨text, env, ?_, envRel_stack hrel1 c1, hb1, hk1⟩
+      simp [refCmd, hev, Spec.Eval.Out.bind, ht]
   obtain ⟨hv, _, j, rbv, hj, hrb, he⟩ := forcJoin_some h
   simp only at he
   obtain ⟨re, hre, rfl⟩ := he
@@ -5632,6 +5780,32 @@ example : (match toCmds .off b!"output" sampleRange ⟨[[]], 0⟩ with
 example : refCmds sampleF noRef .off sampleRange
     { vars := [(b!"n", .int 6), (b!"i", .str b!"p")], loops := [], ij := none, globals := [] } = .val b!"1,3,5,p" := rfl
 
+/-- `{foreach $i in range($n)}[{$i}]{ifempty}nothing{$i}{/foreach}` (soyjs 2e1528d) — the `{ifempty}` block after the loop,
+    where `$i` is the parameter again -/
+def sampleRangeIe : CmdList :=
+  .cons (.forc 0 b!"i" (.func 0 b!"range" (.cons (.dataRef 0 b!"n" .nil) .nil))
+      (.mk 0 (.cons (.rawText 0 b!"[") (.cons (.print 0 (.dataRef 0 b!"i" .nil) []) (.cons (.rawText 0 b!"]") .nil))))
+      (some (.mk 0 (.cons (.rawText 0 b!"nothing") (.cons (.print 0 (.dataRef 0 b!"i" .nil) []) .nil))))) .nil
+
+set_option maxRecDepth 8000 in
+example : (toCmds .off b!"output" sampleRangeIe ⟨[[]], 0⟩).map (fun r => printPieces (renderStmts false 1 r.1)) = some
+    b!"  var i$Limit1 = opt_data.n;\n  var i$Step1 = 1;\n  for (var i$1 = 0, i$Index1 = 0; i$1 < i$Limit1; i$1 += i$Step1, i$Index1++) {\n    output += '[';\n    output += i$1;\n    output += ']';\n  }\n  if (i$Index1 == 0) {\n    output += 'nothing';\n    output += opt_data.i;\n  }\n" := by
+  decide +kernel
+
+def rangeIeRun (n : Int) : Option JVal :=
+  match toCmds .off b!"output" sampleRangeIe ⟨[[]], 0⟩ with
+  | some r => (match execStmts sampleF noCall 10 r.1 ⟨[(b!"n", .num n), (b!"i", .str b!"p")], none, [(b!"output", .str [])]⟩ with
+    | .ok e => (e.locals.find? (·.1 == b!"output")).map (·.2)
+    | _ => none)
+  | none => none
+
+example : rangeIeRun 0 = some (.str b!"nothingp") := rfl
+example : rangeIeRun 2 = some (.str b!"[0][1]") := rfl
+example : refCmds sampleF noRef .off sampleRangeIe
+    { vars := [(b!"n", .int 0), (b!"i", .str b!"p")], loops := [], ij := none, globals := [] } = .val b!"nothingp" := rfl
+example : refCmds sampleF noRef .off sampleRangeIe
+    { vars := [(b!"n", .int 2), (b!"i", .str b!"p")], loops := [], ij := none, globals := [] } = .val b!"[0][1]" := rfl
+
 /-- `{switch $n}{case 1, 2}low{let $n: 'x' /}{$n}{case 'a'}str{default}other{/switch}{$n}` -/
 def sampleSwitch : CmdList :=
   .cons (.switch 0 (.dataRef 0 b!"n" .nil)
@@ -5899,7 +6073,9 @@ end ExamplesGlobals
 
   PROVED, for command lists built from raw text, `{print e |d…}` (directive arguments literal, every
   directive known to both backends), `{let $x: e /}`, `{if}/{elseif}/{else}`, `{foreach $x in e}` with
-  or without `{ifempty}`, `{for $i in range(…)}` with one to three arguments (the step absent or a
+  or without `{ifempty}`, `{for $i in range(…)}` / `{foreach $i in range(…)}` with one to three arguments, with or without
+  `{ifempty}` (after the loop and outside its frame `if (index == 0) {…}`: the index local counts the iterations — `range_core`;
+  the step absent or a
   positive integer literal: the specification leaves a non-positive step open, and JavaScript then
   loops forever or not at all), `{switch e}{case v, …}…{default}…{/switch}` (`===` on null / booleans /
   numbers / strings against the specification's equality; `undefined` and lists / maps as switch value or label
